@@ -117,6 +117,20 @@ def gen_assembly(rs: Stream, opts: Dict[str, Any]) -> Dict[str, Any]:
 def gen_pie(rs: Stream) -> Dict[str, Any]:
     """k kite-shaped sectors around one axis: the axis edge is shared by every block (an edge may be
     shared by any number of blocks, not only the four of a lattice), every radial face by two."""
+    if rs.chance(0.25):
+        # a ring closed by two blocks: both are built on the same eight vertices (as two half-turn revolves
+        # are), so every one of the twelve edges is shared by both; straight edges here - only lengths matter
+        h = rs.uniform(0.6, 1.6)
+        base = {"i0": [0.5, 0.0], "o0": [rs.uniform(1.0, 1.4), 0.0], "i1": [-0.5, rs.uniform(0.2, 0.5)], "o1": [-rs.uniform(1.0, 1.4), rs.uniform(0.2, 0.5)]}
+        points = {}
+        for nm, (x, y) in base.items():
+            points[nm + "_0"] = [round(x, 6), round(y, 6), 0.0]
+            points[nm + "_1"] = [round(x, 6), round(y, 6), round(h, 6)]
+        a = ["i0", "o0", "o1", "i1"]
+        b = ["i1", "o1", "o0", "i0"]
+        blocks = [{"name": "b0", "cell": [0, 0, 0], "corners": [x + "_0" for x in a] + [x + "_1" for x in a]},
+                  {"name": "b1", "cell": [1, 0, 0], "corners": [x + "_0" for x in b] + [x + "_1" for x in b]}]
+        return {"points": points, "blocks": blocks, "curved": {}, "chops": [], "pie": 2}
     k = rs.weighted([(3, 2), (4, 2), (5, 2), (6, 2), (8, 2), (12, 1), (19, 1), (20, 2), (22, 1), (24, 2)])
     m = k + (rs.pick([1, 2, 3]) if rs.chance(0.3) else 0)  # a full circle, or part of one
     m = max(m, 3)
